@@ -1524,7 +1524,7 @@ func c11chunkDimWidth(c *Ctx, r *Result, rule string) {
 		}
 	}
 	if encW == 0 {
-		r.Errorf(rule+": store of chunk dimensions in encodeChunkedLayout not recognised")
+		r.Errorf(rule + ": store of chunk dimensions in encodeChunkedLayout not recognised")
 		return
 	}
 	// decoder: the arm taken for ChunkKeySize == 8 reads UintN of which width; the other arm likewise
@@ -1570,7 +1570,7 @@ func c11chunkDimWidth(c *Ctx, r *Result, rule string) {
 		}
 	}
 	if len(widthFor) != 2 {
-		r.Errorf(rule+": the ChunkKeySize == 8 branch of parseLayoutV3 was not recognised")
+		r.Errorf(rule + ": the ChunkKeySize == 8 branch of parseLayoutV3 was not recognised")
 		return
 	}
 	// ParseDataLayoutMessage must take the key size from determineChunkKeySize(sb.Version)
